@@ -29,7 +29,6 @@ from c15lib import cps, text_of
 LIT_KINDS = ("IntLit", "RatLit", "FloatLit", "ImaginaryFloatLit", "StringLit", "BytesLit", "FormatString")
 CONFIGS = {"quick": ("full", "num", "num2", "str"), "thorough": ("fullx", "core", "num", "num2", "str")}
 DEPTH = {"quick": 3000, "thorough": 10000}      # nesting depth of the delimiter / keyword towers
-TLC_ENV = None
 
 
 def tlc_env():
